@@ -5,6 +5,7 @@ import (
 	"errors"
 	"fmt"
 	"io/fs"
+	"os"
 	"path/filepath"
 
 	"github.com/pgavlin/dawn/internal/mvs"
@@ -46,13 +47,16 @@ func (proj *Project) loadConfigFile(path string) error {
 func (proj *Project) loadConfig() (err error) {
 	for _, name := range []string{"dawn.toml", ".dawnconfig"} {
 		path := filepath.Join(proj.root, name)
-		if err = proj.loadConfigFile(path); err == nil {
-			proj.configPath = path
-			return nil
+		// Only a missing configuration file sends us on to the next name. An error from further down (a requirement
+		// whose cached project has lost its own configuration file) may wrap fs.ErrNotExist as well.
+		if _, err = os.Stat(path); errors.Is(err, fs.ErrNotExist) {
+			continue
 		}
-		if !errors.Is(err, fs.ErrNotExist) {
+		if err = proj.loadConfigFile(path); err != nil {
 			return err
 		}
+		proj.configPath = path
+		return nil
 	}
 	return err
 }
